@@ -582,7 +582,8 @@ pub fn gen_model(r: &mut Rng, o: &GenOpts) -> (AbsModel, Vec<char>) {
     let mut words: Vec<String> = vec![];
     for _ in 0..n_d {
         let w = if !keys.is_empty() && r.chance(1, 3) { r.pick(&keys).clone() } else { rand_word(r, &alpha, 1, o.max_word_len) };
-        if !words.contains(&w) {
+        // a word may be listed more than once (the file format allows it; the weights of the records add up)
+        if !words.contains(&w) || r.chance(1, 5) {
             words.push(w);
         }
     }
